@@ -337,6 +337,9 @@ func shrink(s Script, kind string) Script {
 	}
 	cur := s
 	budget := 400
+	if len(s.Lines) > 20 {
+		budget = 120
+	}
 	// drop lines
 	for changed := true; changed && budget > 0; {
 		changed = false
